@@ -679,7 +679,7 @@ def c17_to_bytes_fresh(run):
             it = I.Interp(I.Path([]), uf=G.UF)
             m = Machine()
             selfobj = Bag(R=Bag(one=one), spawn=I.Native("spawn", lambda i2, a, k: m),
-                          arcs=I.Native("arcs", lambda i2, a, k: [("p", "é", "q", w), ("p", "a", "q", w), ("q", "", "p", w), ("p", "€", "q", w)]))
+                          arcs=I.Native("arcs", lambda i2, a, k: [("p", "é", "q", w), ("p", "a", "q", w), ("q", "", "p", w), ("p", "€", "q", w), ("p", "\u4e38", "q", w)]))   # U+4E38 = e4 b8 b8: last byte recurs
             fobj = I.FuncObj(fn, I.Env(None, dict(genv)), "WFSA.to_bytes")
             ret = it.call_func(fobj, [selfobj], {})
             if ret is not m:
@@ -695,7 +695,7 @@ def c17_to_bytes_fresh(run):
         arcs = [(_c(a[0]), a[1], _c(a[2]), a[3]) for a in m.arcs]
         new_states = {s for a in arcs for s in (a[0], a[2])} - {"p", "q"}
         news.append(new_states)
-        be = list("é".encode()), list("€".encode())
+        be = list("é".encode()), list("€".encode()), list("\u4e38".encode())
         for bs in be:
             # follow the chain p -bs[0]-> s1 -...-> q
             cur, wts = "p", []
@@ -712,7 +712,7 @@ def c17_to_bytes_fresh(run):
                     ok_chain = False
         if not any(a == ("p", ord("a"), "q", w) or (a[0], a[1], a[2]) == ("p", ord("a"), "q") for a in arcs) or not any((a[0], a[1], a[2]) == ("q", "", "p") for a in arcs):
             ok_chain = False
-        if len(new_states) != 3:       # é: 1 intermediate state, €: 2
+        if len(new_states) != 5:       # é: 1 intermediate state, €: 2, U+4E38: 2
             ok_chain = False
     if ok_chain:
         run.obligation(n_chain, "proved", role=AUX, backend="pyvc", detail="2- and 3-byte labels become chains through 1 resp. 2 new states with weight one on all but the last arc; single-byte and epsilon arcs unchanged")
